@@ -215,6 +215,11 @@ func runC15(c *Ctx) []Violation {
 			nr.Vals[fi] = "Q" + nr.Vals[fi]
 		}
 		recs[k] = nr
+		if w.Render(nr) == w.Render(w.LRecs[k]) {
+			// the stored bytes did not change (a fixed-width column cut the longer value): nothing to observe
+			c.Count("checksum-flip.not-visible-in-stored-bytes", 1)
+			recs = nil
+		}
 		var texts []string
 		for _, r := range recs {
 			texts = append(texts, w.Render(r))
@@ -233,7 +238,7 @@ func runC15(c *Ctx) []Violation {
 				}
 			}
 		}
-		if len(t2.Entries) == len(t0.Entries) {
+		if recs != nil && len(t2.Entries) == len(t0.Entries) {
 			for i := range t0.Entries {
 				a, b := t0.Entries[i], t2.Entries[i]
 				if a.Class != run.ClsRecord || b.Class != run.ClsRecord {
